@@ -65,6 +65,10 @@ func TestVFCrashRegistry(t *testing.T) {
 	mux := http.NewServeMux()
 	mux.HandleFunc("/vf/publish", func(w http.ResponseWriter, r *http.Request) {
 		n, v := r.URL.Query().Get("n"), r.URL.Query().Get("v")
+		if v == "big" && gguf[v] == nil {
+			// a model layer of 100 004 096 bytes: the smallest that PullModel downloads in two parts
+			gguf[v], system[v] = vfGGUFBytes(25001023), "You are system one."
+		}
 		if gguf[v] == nil {
 			http.Error(w, "no such version", 400)
 			return
